@@ -163,3 +163,36 @@ def F11list(f):
         return False
     s = _series(f)
     return len({type(v) for v in s}) > 1
+
+
+def F09c(f):
+    """coercion_true_test calls series.all(), which pandas refuses for the 'string' dtypes"""
+    import pandas as pd
+    if f.get("backend", "pandas") != "pandas" or "DispatchError" not in f.get("class", "") or "is_relation" not in f.get("class", ""):
+        return False
+    s = _series(f)
+    return isinstance(s.dtype, pd.StringDtype) and s.dtype.na_value is pd.NA
+
+
+def F07b(f):
+    """string-encoded Path/UUID/IP/Email/Geometry with missing values mixed in stays String"""
+    if not f.get("class", "").startswith("family:"):
+        return False
+    if f.get("family") not in ("Path", "UUID", "IPAddress", "EmailAddress", "Geometry") or not str(f.get("pool", "")).endswith("str"):
+        return False
+    s = _series(f)
+    return bool(s.hasnans) and f.get("class", "").endswith("->String")
+
+
+def F07a(f):
+    """object-dtype columns of Python ints / floats / complex / timestamps / timedeltas are typed Object
+    (and [1, 0] as Boolean since 1 == True): there is no Object -> numeric/datetime relation"""
+    return (f.get("class", "").startswith("family:") and f.get("enc_dtype") == "object"
+            and f.get("family") in ("Integer", "Float", "Complex", "DateTime", "TimeDelta")
+            and (f.get("class", "").endswith("->Object") or f.get("class", "").endswith("->Boolean")))
+
+
+def F09h(f):
+    """a float-literal column that pd.to_datetime also accepts (recorded overlap F02a) can be routed through
+    String -> DateTime -> Date, where series.dt.date raises ValueError ('year 0 is out of range') for '.5'-like values"""
+    return "datetime_to_date" in f.get("class", "") and "ValueError" in f.get("class", "") and _only_known_overlaps(f)
